@@ -38,6 +38,7 @@ def probeXHand (_r c _row0 col0 : Nat) : Nat := c + col0
 def probeYHand (r _c row0 _col0 : Nat) : Nat := r + row0
 def probeOriginHand (_r _c _row0 _col0 : Nat) : Nat := 0
 def probeScopeHand (_r _c _row0 _col0 : Nat) : Nat := 1
+def probeFullHand (_r _c _row0 _col0 : Nat) : Nat := 1
 
 /-- the 0-based FITS pixel position `(x, y)` at which the code asks "is this island pixel inside the region?":
     the coordinates handed to `pix2world(…, origin)` for the pixel at offsets `(r, c)` of the box, minus `origin` -/
